@@ -4,6 +4,9 @@ import (
 	"flag"
 	"fmt"
 	"os"
+	"runtime"
+	"sync/atomic"
+	"time"
 )
 
 // Common options of one harness run.
@@ -43,6 +46,7 @@ func main() {
 		fmt.Fprintln(os.Stderr, err)
 		os.Exit(2)
 	}
+	go memoryGuard(o)
 	res := fn(o)
 	// every violation carries a replay file, whichever stream added it and whenever
 	res.WriteReplays(o.Verif+"/evidence/replays", o.Prop)
@@ -52,5 +56,37 @@ func main() {
 	if err := res.Save(o.WorkDir + "/result.json"); err != nil {
 		fmt.Fprintln(os.Stderr, err)
 		os.Exit(2)
+	}
+}
+
+// memoryGuard: a render that never ends (the watchdog abandons it, it runs on) can write output
+// without bound and take the whole process down, which would leave ./check without a result.  When
+// the process has grown beyond 6 GiB after at least one abandoned call, the run ends at once with what
+// it has found so far plus a violation that says so.
+func memoryGuard(o *Options) {
+	var ms runtime.MemStats
+	for {
+		time.Sleep(150 * time.Millisecond)
+		if atomic.LoadInt64(&hangCount) == 0 {
+			continue
+		}
+		runtime.ReadMemStats(&ms)
+		if ms.Sys < 6<<30 {
+			continue
+		}
+		res := liveResult
+		if res == nil {
+			res = NewResult()
+		}
+		func() {
+			defer func() { _ = recover() }()
+			res.AddViolation(&Violation{Kind: "no-failing-input-found", Class: "engine:runaway",
+				What:   fmt.Sprintf("%d calls into the engine did not return within their time limit and the process grew beyond 6 GiB while they ran on (output without bound): the run was ended early", atomic.LoadInt64(&hangCount)),
+				Replay: map[string]any{"correspondence": "run of " + o.Prop + " ended early: abandoned engine calls kept allocating", "hangs": atomic.LoadInt64(&hangCount)}})
+			res.WriteReplays(o.Verif+"/evidence/replays", o.Prop)
+			res.Property, res.Tier, res.Seed = o.Prop, o.Tier, o.Seed
+			_ = res.Save(o.WorkDir + "/result.json")
+		}()
+		os.Exit(0)
 	}
 }
